@@ -15,7 +15,7 @@ CLAIMS = {
          "Kani part: given a tree (build_matcher_tree / AndMatcherBuilder are scripts/recorders in c01_default_print). mirsym part: the real build_top_level_matcher, builders and combinators are executed end to end from their MIR on every token sequence of length <= 3 over a 15-word vocabulary (4 tokens: 10 words in quick, 15 in thorough), two symbolic leaf tests, one abstract file, compared with a reference parser/evaluator written from the grammar; std calls are models, Printer/-prune/-empty/-readable are natives. Operand-taking primaries, longer expressions and Printer's bytes are outside.",
          "4 C01"),
  "C02": ("findutils' side of the traversal: process_dir evaluates every yielded entry exactly once and in order, an error step gives a non-zero status and the walk continues (<=2/3 scripted steps, all entry records); the WalkDir configuration requested equals the Config (depth range incl. the empty range, -L/-H, -depth, -xdev, -sorted) for every Config; do_find accumulates the status over <=3 starting points.",
-         "walkdir 2.5 itself (which entries exist, link following, loop detection) is trusted: in Kani its iterator is scripted and its builder methods are recorders; in mirsym (c02_walk) process_dir + WalkEntry::from_walkdir + WalkError's conversions run over a port of walkdir 2.5's iterator (min/max depth, contents_first, follow_links, errors for dangling and looping links and unreadable directories - errors bypass min_depth as in walkdir) on an 11-entry tree for every (mindepth, maxdepth) in 0..4 x -depth x -P/-H/-L: exactly the in-range entries are evaluated, each once, in order, a dangling link as a link.",
+         "walkdir 2.5 itself (which entries exist, link following, loop detection) is trusted: in Kani its iterator is scripted and its builder methods are recorders; in mirsym (c02_walk) process_dir + WalkEntry::from_walkdir + WalkError's conversions run over a port of walkdir 2.5's iterator (min/max depth, contents_first, follow_links, errors for dangling and looping links and unreadable directories - errors bypass min_depth as in walkdir) on an 11-entry tree for every (mindepth, maxdepth) in 0..4 x -depth x -P/-H/-L: exactly the in-range entries are evaluated, each once, in order, a dangling link as a link; also with the starting point itself a symbolic link to the directory (known findings F-C02-H-rootlink-depth / F-C03-H-rootlink-depth: -H + such a root + -depth, inherited from walkdir).",
          "4 C02"),
  "C03": ("-prune marks exactly directories as the follow mode sees them (all types, P/H/L, stat failures) and is always true; the walk loop requests skip_current_dir iff -prune fired on a directory and -depth is off, for every script of <=2 (thorough 3) steps; contents_first/sort_by are requested iff -depth/-sorted. mirsym (c02_walk): the real parser on '-name X -prune -o -print' with -depth absent / before / after, process_dir and PruneMatcher over a port of walkdir's iterator (skip_current_dir included), X selecting any subset of the directories (and a link to a directory) of an 11-entry tree: exactly the descendants of the pruned directories are left out in the default order, nothing is left out under -depth, visit order pre/post, status; plus the depth-range walk of C02.",
          "Pre/post-order and sibling order themselves are walkdir's (trusted). Path::parent is cut in the loop harness (disables only finished_dir bookkeeping).",
